@@ -31,8 +31,10 @@ def gen_case(st, tier, env):
     kind = k.choice(["generate_rankings", "generate_rankings", "markov_dataset", "markov_dataset",
                      "uniform_permutations", "uniform_dataset"])
     n = k.randint(1, 8) if tier == "quick" or k.random() < 0.8 else k.randint(9, 14)
-    m = k.randint(1, 5)
+    m = k.randint(1, 5) if k.random() < 0.94 else k.randint(6, 200)  # the statement says "every number of rankings"
     steps = k.choice([0, 1, 2, 5, 20, 200, 10 * n, 3 * n])
+    if m > 5:  # many rankings: keep each walk short
+        n, steps = min(n, 5), k.choice([0, 1, 5, 10])
     complete = k.random() < 0.5
     pol = k.choice(["uniform", "uniform", "uniform", "bias1", "bias2", "bias3", "bias4", "bias5", "bias5", "first",
                     "last", "mid", "alt"])
